@@ -82,7 +82,12 @@ func (e *Env) Deliver(ctx sdk.Context, txLabel string, msgs ...sdk.Msg) (out Out
 type Handler func(ctx sdk.Context, msg sdk.Msg) (proto.Message, error)
 
 func (e *Env) DeliverWith(ctx sdk.Context, txLabel string, h Handler, msgs ...sdk.Msg) (out Outcome) {
-	txb := TxBytesFor(txLabel)
+	return e.DeliverBytes(ctx, TxBytesFor(txLabel), h, msgs...)
+}
+
+// DeliverBytes is DeliverWith with explicit transaction bytes; nil models a message executed outside a
+// transaction (e.g. by a passed governance proposal in an end-blocker), where ctx.TxBytes() is empty.
+func (e *Env) DeliverBytes(ctx sdk.Context, txb []byte, h Handler, msgs ...sdk.Msg) (out Outcome) {
 	txCtx := ctx.WithTxBytes(txb).
 		WithGasMeter(storetypes.NewInfiniteGasMeter()).
 		WithEventManager(sdk.NewEventManager())
